@@ -225,6 +225,9 @@ def main(tier, seed):
     per = 120 if tier == "quick" else 4000
     jobs = [{"seed": seed, "lo": i * per, "hi": (i + 1) * per} for i in range(NCPU)]
     run.absorb(run_shards("checks.c15", "shard", jobs, timeout=3000))
+    from checks import c15_threaded
+
+    c15_threaded.add(run, tier, seed)
     for m in ("none", "id", "id-absent", "addr", "addr+id"):
         run.need(m in run.sets.get("modes", set()), f"filter mode {m} never exercised")
     run.need(run.counters.get("names_with_separator_listed", 0) > 5 and run.counters.get("names_latin1_listed", 0) > 20, "names with '|' / latin-1 hardly listed")
@@ -236,4 +239,6 @@ def main(tier, seed):
 
 
 def replay(path):
-    return main("quick", 0)
+    from vlib.common import replay_args
+
+    return main(*replay_args(path))
